@@ -12,10 +12,13 @@ RULE = ("corpus first; then the roller trees of C11 with every positive-weight a
         "live values, every live outcome of every source roll kept / a source of a derived outcome / the source of "
         "a tombstone, every outcome reachable through `sources` associated with a roll) and its projection to a "
         "tree (roller position, values, owner roller, sources recursively, source rolls) is compared with the "
-        "model's record for the same answers.  Non-trivial: an inner node and at least two paths.")
+        "model's record for the same answers; dyce.r.walk is run from the roll, from its first outcome and from the "
+        "roller and must visit exactly once every roll / roller / outcome an independent traversal reaches, with "
+        "exactly the referring objects as parents.  Non-trivial: an inner node and at least two paths.")
 ASSUMPTIONS = [
     "object identity is modelled by heap ids; the comparison uses the projection of the graph to a tree",
     "iteration order of the set of excluded indexes in SelectionRoller is taken to be ascending",
+    "dyce.r.walk is not modelled in Coq: it is compared with an independent Python traversal of the same object graph",
 ]
 
 
